@@ -40,6 +40,8 @@ func runC17(x *Ctx) {
 	allOrNothing(x)
 	carIntegrity(x)
 	writersCover(x)
+	x.C.Rule("C17.R6", "readers do not share state across calls: nothing is released to a pool while a returned iterator still uses it", 2)
+	x.poolDiscipline("C17.R6", "pkg/container")
 }
 
 // stagesOf computes the stage markers reachable from f inside package container.
